@@ -611,6 +611,7 @@ def _exec_fast_in(ctx, plan):
     board.line.send(b"\r", 0.0)          # the firmware terminates whatever the noise left open with its next line end
     tg = plan["tail_gap"]
     for i, (num, st) in enumerate(plan["tail"]):
+        board.closed[num] = st ^ (1 if num in FAST_NC else 0)      # a belated SA: reply reports the state after the tail
         board.line.send(B.FastNeuronBoard.switch_frame(num, st), tg * (i + 1))
     assert len(plan["tail"]) >= K_TAIL
     sim.run_quiet(tg * len(plan["tail"]) + 0.6)
@@ -800,8 +801,8 @@ def _fast_judge(ctx, plan, stream, calls, watch, init, noisy, tag):
         ctx.violation("phantom_message", "fast:SA", "SA: message %r handed to the processor does not correspond to a "
                       "line of the delivered stream" % (sa_calls[si]["msg"],))
     final = watch.states()
-    for num, st in plan["tail"]:
-        model[FAST_SW[num]] = st
+    # the tail frames are lines of the stream like all others: the model above already followed them in wire order
+    # (a belated reply to an SA: query may arrive after them and then is the last report)
     if final != model:
         diff = {k: (final[k], model[k]) for k in model if final[k] != model[k]}
         ctx.violation("last_report", "fast", "after the clean tail switch states differ from the last report: "
@@ -1051,7 +1052,7 @@ def _exec_fast_flow(ctx, plan):
             comm.send_with_confirmation(msg, H)
             bound_total[0] += 0.5
         elif kind == "sa":
-            track("get_hw_switch_states", platform.get_hw_switch_states(query_hw=True), 1.0)
+            track("get_hw_switch_states", platform.get_hw_switch_states(query_hw=True), 1.0, wire=b"SA:\r")
         elif kind == "wait":
             msg, H = query(op["what"], op["num"])
             wire = (msg + "\r").encode()
@@ -1081,6 +1082,16 @@ def _exec_fast_flow(ctx, plan):
         task = tk["task"]
         if not task.done():
             direct = tk["lost"] > 0
+            if (not lost_any and tk["desc"] == "get_hw_switch_states"
+                    and not [t for t in oracle.tx_times.get(b"SA:\r", []) if t >= tk["t0"] - 1e-12]):
+                # no reply was lost, but the SA: query of this caller never reached the port at all:
+                # update_switches_from_hardware() returned without queueing it (the command was dropped) and
+                # get_hw_switch_states() then waits for switch data that nobody asked for
+                ctx.violation("command_never_sent", "fast:SA: never queued (get_hw_switch_states waits forever)",
+                              "get_hw_switch_states(query_hw=True) started at %.6f is still blocked at %.6f and its "
+                              "'SA:' query was never written to the port (writes of SA: %r)"
+                              % (tk["t0"], sim.now, oracle.tx_times.get(b"SA:\r")))
+                continue
             rule = "lost_response_blocks_forever" if lost_any else "caller_blocked_forever"
             ctx.violation(rule, "fast:%s%s" % (tk["desc"].split("(")[0], "" if direct or not lost_any
                                                else " (behind a caller whose response was lost)"),
